@@ -362,6 +362,12 @@ ares_status_t ares_array_claim_at(void *dest, size_t dest_size,
   }
 
   arr->cnt--;
+
+  /* Nothing left, start from the beginning of the allocation again.  An
+   * offset equal to the allocation size could not be moved back later */
+  if (arr->cnt == 0) {
+    arr->offset = 0;
+  }
   return ARES_SUCCESS;
 }
 
